@@ -27,10 +27,13 @@ V6 == 17      \* "[2001:db8::1]"
 BAD == 18     \* the byte 0xFF (invalid UTF-8)
 EA == 19      \* U+00E9 (what CS normalises to)
 L1022 == 20  L1023 == 21  L1024 == 22      \* runs of n letters "a"
+V6B == 23     \* "fe80::1": the text of an IPv6 address without its brackets
+PCT == 24     \* "%" (introduces a zone in textual IPv6 addresses; no zone is part of an IP literal of RFC 7622 3.2 / RFC 3986)
 
 Core  == 1..19                  \* symbols of the exhaustive enumeration
 Longs == {L1022, L1023, L1024}
-Sigma == Core \cup Longs
+IPSyms == {V6B, PCT}            \* symbols of the IP-literal family (EmitJID.IPStrs)
+Sigma == Core \cup Longs \cup IPSyms
 
 (* concrete text of each symbol for the Go driver: code points, or raw bytes, or a run *)
 Text == [s \in Sigma |->
@@ -42,11 +45,12 @@ Text == [s \in Sigma |->
     [] s = V6 -> <<91, 50, 48, 48, 49, 58, 100, 98, 56, 58, 58, 49, 93>>
     [] s = BAD -> <<-255>>                      \* negative: a raw byte
     [] s = EA -> <<233>>
+    [] s = V6B -> <<102, 101, 56, 48, 58, 58, 49>> [] s = PCT -> <<37>>
     [] s = L1022 -> <<-100000 - 1022>> [] s = L1023 -> <<-100000 - 1023>> [] s = L1024 -> <<-100000 - 1024>>]
 
 (* UTF-8 length of the symbol's text *)
 BLen == [s \in Sigma |->
-  CASE s \in {FW, IDS} -> 3 [] s = CS -> 3 [] s \in {UU, EA} -> 2 [] s = XN -> 7 [] s = V4 -> 9 [] s = V6 -> 13
+  CASE s \in {FW, IDS} -> 3 [] s = CS -> 3 [] s \in {UU, EA} -> 2 [] s = XN -> 7 [] s = V4 -> 9 [] s = V6 -> 13 [] s = V6B -> 7
     [] s = L1022 -> 1022 [] s = L1023 -> 1023 [] s = L1024 -> 1024 [] OTHER -> 1]
 
 RECURSIVE SumLen(_)
@@ -87,7 +91,7 @@ CONSTANT Dev      \* named deviations (always {} in design checks and validation
 (* localpart: UsernameCaseMapped (width mapping, lower case, NFC) + RFC 7622 3.3.1 *)
 NormLSym(s) == CASE s \in {UA, FW} -> a [] s = CS -> EA [] OTHER -> s
 NormL(p) == MapSeq(p, NormLSym)
-ForbiddenLocal == {AT, SL, QUOT, COLON, V6}       \* (& ' < > have no representative; V6 contains ":")
+ForbiddenLocal == {AT, SL, QUOT, COLON, V6, V6B}       \* (& ' < > have no representative; V6 contains ":")
 ClsL(p) ==
   IF p = <<>> THEN "ok"                                        \* no localpart
   ELSE IF Has(p, {BAD}) \/ Has(p, ForbiddenLocal) THEN "bad"
@@ -112,11 +116,12 @@ Join(ls) == IF Len(ls) = 1 THEN ls[1] ELSE ls[1] \o <<DOT>> \o Join(Tail(ls))
 DLabels(p) == LET ls == Labels(MapSeq(p, NormDSym)) IN
               IF Len(ls) >= 2 /\ ls[Len(ls)] = <<>> THEN SubSeq(ls, 1, Len(ls) - 1) ELSE ls
 NormLabel(lb) == IF lb = <<XN>> THEN <<UU>> ELSE lb
-NormDStrict(p) == IF p = <<V6>> THEN p ELSE Join(MapSeq(DLabels(p), NormLabel))
+IPLit(p) == p = <<V6>> \/ p = <<LB, V6B, RB>>          \* a bracketed IPv6 address and nothing else
+NormDStrict(p) == IF IPLit(p) THEN p ELSE Join(MapSeq(DLabels(p), NormLabel))
 DomainLetters == {a, UA, DOT, FW, CS, IDS, UU, XN, EA} \cup Longs
 ClsD(p) ==
   IF p = <<>> \/ Has(p, {BAD}) THEN "bad"
-  ELSE IF p = <<V6>> \/ p \in {<<V4>>, <<V4, DOT>>, <<V4, IDS>>} THEN "ok"
+  ELSE IF IPLit(p) \/ p \in {<<V4>>, <<V4, DOT>>, <<V4, IDS>>} THEN "ok"
   ELSE IF ~(\A i \in 1..Len(p) : p[i] \in DomainLetters) THEN "free"       \* non-LDH ASCII, IP tokens inside
   ELSE LET ls == DLabels(p) IN
        IF \E i \in 1..Len(ls) : ls[i] = <<>> THEN "free"                   \* empty label
